@@ -53,8 +53,10 @@ def sh(cmd, cwd=None, env=None, timeout=None, check=False, input=None):
     e["CARGO_NET_OFFLINE"] = "true"
     if env:
         e.update(env)
+    text = isinstance(input, str) or input is None
+    # (a panic message can quote bytes that are not UTF-8: never let the decoding of a tool's output end the check)
     p = subprocess.run(cmd, cwd=cwd, env=e, stdout=subprocess.PIPE, stderr=subprocess.PIPE,
-                       timeout=timeout, input=input, text=isinstance(input, str) or input is None)
+                       timeout=timeout, input=input, **({"encoding": "utf-8", "errors": "replace"} if text else {}))
     if check and p.returncode != 0:
         raise RuntimeError("command failed: %s\n%s\n%s" % (cmd, p.stdout[-4000:], p.stderr[-4000:]))
     return p
